@@ -8400,6 +8400,8 @@ S_<TN_, TA_, TH_>::deepPreUpdate(FullControl& control) noexcept {
 
 	ScopedOrigin origin{control, STATE_ID};
 
+	control._taskStatus.clear();
+
 	Head::widePreUpdate(control);
 	Head::	  preUpdate(control);
 
@@ -8415,6 +8417,8 @@ S_<TN_, TA_, TH_>::deepUpdate(FullControl& control) noexcept {
 
 	ScopedOrigin origin{control, STATE_ID};
 
+	control._taskStatus.clear();
+
 	Head::wideUpdate(control);
 	Head::	  update(control);
 
@@ -8429,6 +8433,8 @@ S_<TN_, TA_, TH_>::deepPostUpdate(FullControl& control) noexcept {
 						   Method::POST_UPDATE);
 
 	ScopedOrigin origin{control, STATE_ID};
+
+	control._taskStatus.clear();
 
 	Head::	  postUpdate(control);
 	Head::widePostUpdate(control);
@@ -8453,6 +8459,8 @@ S_<TN_, TA_, TH_>::deepPreReact(EventControl& control,
 
 	ScopedOrigin origin{control, STATE_ID};
 
+	control._taskStatus.clear();
+
 	Head::widePreReact(event, control);
 	(this->*method) (event, control);
 
@@ -8476,6 +8484,8 @@ S_<TN_, TA_, TH_>::deepReact(EventControl& control,
 
 	ScopedOrigin origin{control, STATE_ID};
 
+	control._taskStatus.clear();
+
 	Head::wideReact(event, control);
 	(this->*method)(event, control);
 
@@ -8498,6 +8508,8 @@ S_<TN_, TA_, TH_>::deepPostReact(EventControl& control,
 						   Method::POST_REACT);
 
 	ScopedOrigin origin{control, STATE_ID};
+
+	control._taskStatus.clear();
 
 	(this->*method)	   (event, control);
 	Head::widePostReact(event, control);
